@@ -82,6 +82,9 @@ def expected_dihedrals(edges):
 def types_for(edges, scheme):
     adj = adjacency(edges)
     n = max(adj) + 1
+    if scheme == 3:
+        # one type for every atom whatever its degree: the same type sequence then occurs with different numbers of torsions about the bond
+        return ['C_3'] * n
     tab = [{1: 'H_', 2: 'O_3', 3: 'C_R', 4: 'C_3'}, {1: 'H_', 2: 'C_1', 3: 'N_R', 4: 'C_3'}, {1: 'F_', 2: 'S_3+2', 3: 'C_2', 4: 'Si3'}][scheme]
     return [tab.get(len(adj.get(i, ())), 'Zr3+4') for i in range(n)]
 
@@ -183,14 +186,17 @@ def check_typing(edges, scheme, seed):
             return "%s: the same UFF type sequence got two different type ids" % kind
         for tup, (k, coeff) in d.items():
             ts = [types[i] for i in tup]
-            with quiet():
-                if kind == 'bond':
-                    want = '%10.6f %10.6f' % U.bond_params(*ts)
-                elif kind == 'angle':
-                    want = U.angle2lammpsdat((*U.angle_params(*ts), ''))[:-3].rstrip()
-                else:
-                    p = U.dihedral_params(*ts, num_dihedrals_about_bond=per_bond[canon((tup[1], tup[2]))])
-                    want = '%s %10.6f %d %d' % p
+            # expected coefficients from the independent implementation of the UFF formulas (specs/uff_spec.py)
+            from specs import uff_spec as SP
+            from mofun.uff4mof import UFF4MOF, MAIN_GROUP_ELEMENTS
+            if kind == 'bond':
+                want = '%10.6f %10.6f' % SP.bond(UFF4MOF, *ts)
+            elif kind == 'angle':
+                pa = SP.angle(UFF4MOF, *ts)
+                want = ('%s %10.6f %10.6f %10.6f %10.6f' % pa) if pa[0] == 'fourier' else ('%s %10.6f %d %d' % pa)
+            else:
+                p = SP.torsion(UFF4MOF, MAIN_GROUP_ELEMENTS, tuple(ts), per_bond[canon((tup[1], tup[2]))])
+                want = '%s %10.6f %d %d' % p
             if not coeff.startswith(want.strip()) and want.strip() not in coeff:
                 return "%s %r has coefficients %r, parameters of its type sequence are %r" % (kind, tup, coeff, want)
     # dihedrals without parameters are dropped, all others kept
@@ -287,7 +293,7 @@ def run(rec, tier, seed):
             rec.case(('enum', name, gi, v), group='enumeration', sample={'graph': name, 'edges': edges} if len(rec.samples) < 2 else None)
             if msg:
                 rec.fail('uffterms', 'enumeration', "%s on %s %r" % (msg, name, edges), {'what': 'enumeration', 'edges': edges, 'seed': seed + v}, 'C19/calc_angles,calc_dihedrals')
-        for scheme in range(3):
+        for scheme in range(4):
             msg = check_typing(edges, scheme, seed + gi)
             rec.case(('typing', name, gi, scheme), group='typing')
             if msg:
